@@ -148,26 +148,26 @@ CHECKS = {
 
 # What the seeded-change rounds added to each check after the text above was written (appended to the text).
 EXT = {
- "C01": "Added later: catalogue entries for kvno differing by multiples of 256, names with the same rendering but another split, names differing only in case, empty ticket realm, times at the extremes of the representable range, PAC defects; tickets with addresses are judged against the configured client address.",
- "C02": "Added later: timestamps differing below the second and presented in other time zones, service names differing only in case, presentations at 2 x skew - 500 ms; the same histories driven through service.VerifyAPREQ (keytab principal override with altered clear-text sname, two skews, a 6000-authenticator history) and a concurrent VerifyAPREQ scenario.",
- "C03": "Added later: one wrapper shared by a sequence and by two scheduled requests (address-bound tickets from two remote addresses), a second user and the cookie of the first user's session, remote-address shapes (IPv4/IPv6/with zone/without port), replayed tokens with one letter of the clear-text sname in another case.",
- "C04": "Added later: truncation inside nested DER elements with consistent outer lengths, raw (non-DER) nodes, seeds above 64 KiB for length-prefixed PAC buffers, a guard that reports a seed the library refuses once by name.",
- "C05": "Added later: dense usage sweep 1..8192, caller-buffer integrity after every call, aliasing histories (key buffer overwritten in place: A, B, A), sibling etypes sharing key bytes, schedules of two concurrent encryptions/decryptions plus a free-running -race pass.",
- "C06": "Added later: the three decryption APIs (DecryptMessage, DecryptEncPart, etype method), a usage matrix 0..32 x 0..32 and a dense sweep 1..1200 after a prior operation with a colliding usage, a genuine ciphertext retried after a failed attempt on the same buffers, returned bytes judged even when an error is returned.",
- "C07": "Added later: dense usage sweep 0..8192, keys of wrong length, empty and over-long presented checksums, keys differing in one bit, aliasing histories, concurrent schedules.",
- "C08": "Added later: unrelated PA-data elements at every position of every hint sequence, ETYPE-INFO and ETYPE-INFO2 naming different etypes, default salts for 10 realms (lower/mixed case, non-ASCII, empty, blanks) x 10 names x etypes x hint shapes without salt.",
- "C09": "Added later: world variants (every exchange forced onto TCP by RESPONSE_TOO_BIG, two-component client principal with a sibling keytab entry, canonicalize, forwardable+proxiable, a KDC that always advertises an explicit salt), replies sealed under a sibling principal's key, enc-parts that decrypt but are not a complete EncKDCRepPart (cut at every offset for one configuration, sample offsets elsewhere; foreign application tags), stale replies to an earlier nonce, KRB-ERROR codes 0..100.",
- "C10": "Added later: time elapsing over two ticket lifetimes with every timer firing at its own instant, KDCs that replace the session key on renewal, referral chains 0..12 and a referral cycle against strict and lenient KDCs (plateau of the exchange count demanded), clients built from a credential cache holding a TGT and a shorter-lived service ticket (not renewable / renewable / renewable with key replacement), nested [domain_realm] suffixes, a virtual clock in a non-UTC zone.",
- "C11": "Added later: scenarios print-vs-login/destroy, cached-ticket-vs-new-ticket, two requests for an expired renewable ticket, lookups with 3 KDCs; the race pass judges the same invariants on the executions it sees and turns goroutines still blocked after 60 s into a deadlock violation.",
- "C12": "Added later: I/O deadlines judged per KDC on the virtual clock, replies retained across attempts, reply sizes around the UDP limit and the TCP length prefix, realm names that are not upper case.",
- "C13": "Added later: consecutive tickets alternating kvno present/absent, negative nonces, round trips through the keytab path and VerifyAPREQ with kvno omitted, all lengths 0..2^24 for the length helpers, re-encoding after decrypt for every encrypted container.",
- "C14": "Added later: kvno values differing by multiples of 256, near-miss lookups whose rendering equals a stored entry's (separator inside a component), holes as first record.",
- "C15": "Added later: tickets with and without kvno mixed, repeated services (last written wins), every pair of different address / authorization-data counts 0..3, versions parsed in alternation in one process.",
- "C16": "Added later: final-value markers in isolation for all four server kinds, preferred_preauth_types in the documented blank-separated form, realm names that are not upper case, boundary-value grids over every field of the three duration formats (seconds; h:m[:s] with hours up to 999; every subset of d/h/m/s units), three consecutive lookups per random outcome.",
- "C17": "Added later: sequence numbers above 2^32, keys differing in one bit, payload slices with spare capacity, tokens verified twice, presented checksums shortened or extended.",
- "C18": "Added later: the first challenge must be answered, every token sent must be fresh and acceptable at its destination (strict reference decode of the AP-REQ and authenticator), bodies read back from the returned response, redirect loops.",
- "C19": "Added later: PACs laid out for one declared type and signed with another mechanism of equal length, repeated group SIDs among the extra SIDs, duplicated signature buffers and trailing bytes, every declared checksum type -200..200 outside the supported five with value lengths {0,1,12,16,20,24} under a key of every etype, one PACType value processing two PACs in turn.",
- "C20": "Added later: unused keytab entries with marker keys, the whole C09 perturbation catalogue on both exchanges (incl. enc-parts that decrypt but do not decode), ccache files of every version and header shape with all 256 values of every header byte, an operation that makes JSON renderings fail (times outside years 0..9999), tickets renewed after expiry, marshal-after-decrypt of request bodies carrying a decrypted additional ticket.",
+ "C01": "Added later: catalogue entries for kvno differing by multiples of 256, names with the same rendering but another split, names differing only in case, empty ticket realm, times at the extremes of the representable range, PAC defects; tickets with addresses are judged against the configured client address. Round 4: skews that are not whole seconds (500 ms, 2.5 s) with expectations at the wire's time resolution, client names containing '@', INVALID flag without starttime.",
+ "C02": "Added later: timestamps differing below the second and presented in other time zones, service names differing only in case, presentations at 2 x skew - 500 ms; the same histories driven through service.VerifyAPREQ (keytab principal override with altered clear-text sname, two skews, a 6000-authenticator history) and a concurrent VerifyAPREQ scenario. Round 4: replays whose clear-text sname is the same text in another split of components; the window's edge driven through VerifyAPREQ (3 skews x 5 client clock offsets x 10 sub-second steps x clean-up or not).",
+ "C03": "Added later: one wrapper shared by a sequence and by two scheduled requests (address-bound tickets from two remote addresses), a second user and the cookie of the first user's session, remote-address shapes (IPv4/IPv6/with zone/without port), replayed tokens with one letter of the clear-text sname in another case. Round 4: a session manager whose Get returns stale bytes together with an error.",
+ "C04": "Added later: truncation inside nested DER elements with consistent outer lengths, raw (non-DER) nodes, seeds above 64 KiB for length-prefixed PAC buffers, a guard that reports a seed the library refuses once by name. Round 4: a flow against KDCs that refer the client on in a cycle, and a cap of 400 connections per operation that turns non-termination into a reported violation.",
+ "C05": "Added later: dense usage sweep 1..8192, caller-buffer integrity after every call, aliasing histories (key buffer overwritten in place: A, B, A), sibling etypes sharing key bytes, schedules of two concurrent encryptions/decryptions plus a free-running -race pass. Round 4: one of the des3 keys of every crypto check is 24 raw random octets (no parity adjustment).",
+ "C06": "Added later: the three decryption APIs (DecryptMessage, DecryptEncPart, etype method), a usage matrix 0..32 x 0..32 and a dense sweep 1..1200 after a prior operation with a colliding usage, a genuine ciphertext retried after a failed attempt on the same buffers, returned bytes judged even when an error is returned. Round 4: key-buffer histories (one key buffer overwritten in place between calls).",
+ "C07": "Added later: dense usage sweep 0..8192, keys of wrong length, empty and over-long presented checksums, keys differing in one bit, aliasing histories, concurrent schedules. Round 4: raw (non-parity) des3 keys.",
+ "C08": "Added later: unrelated PA-data elements at every position of every hint sequence, ETYPE-INFO and ETYPE-INFO2 naming different etypes, default salts for 10 realms (lower/mixed case, non-ASCII, empty, blanks) x 10 names x etypes x hint shapes without salt. Round 4: the hint sequences (with decoys in the lower-precedence kinds) presented by the simulated KDC to the real client's login for 9 (real, decoy) etype pairs; usage constants of every usage number 0..1200 and of numbers carrying a tag octet in any byte.",
+ "C09": "Added later: world variants (every exchange forced onto TCP by RESPONSE_TOO_BIG, two-component client principal with a sibling keytab entry, canonicalize, forwardable+proxiable, a KDC that always advertises an explicit salt), replies sealed under a sibling principal's key, enc-parts that decrypt but are not a complete EncKDCRepPart (cut at every offset for one configuration, sample offsets elsewhere; foreign application tags), stale replies to an earlier nonce, KRB-ERROR codes 0..100. Round 4: KRB-ERROR codes answering the pre-authenticated request; replies to the follow-up request after a referral (perturbation catalogue, sealed under the home TGT's key).",
+ "C10": "Added later: time elapsing over two ticket lifetimes with every timer firing at its own instant, KDCs that replace the session key on renewal, referral chains 0..12 and a referral cycle against strict and lenient KDCs (plateau of the exchange count demanded), clients built from a credential cache holding a TGT and a shorter-lived service ticket (not renewable / renewable / renewable with key replacement), nested [domain_realm] suffixes, a virtual clock in a non-UTC zone. Round 4: every etype alone x {keytab, password with pre-authentication}; noaddresses = false with IPv4 and IPv6 extra_addresses.",
+ "C11": "Added later: scenarios print-vs-login/destroy, cached-ticket-vs-new-ticket, two requests for an expired renewable ticket, lookups with 3 KDCs; the race pass judges the same invariants on the executions it sees and turns goroutines still blocked after 60 s into a deadlock violation. Round 4: every sequential history up to depth 5 (6) in which a Login may complete while a renewal / ticket request is in flight (found the deadlock repaired by 4b4e8dd); a keytab with several entries and a keytab-unchanged invariant; the race pass walks one 2 ms pause over every lock release of each scenario.",
+ "C12": "Added later: I/O deadlines judged per KDC on the virtual clock, replies retained across attempts, reply sizes around the UDP limit and the TCP length prefix, realm names that are not upper case. Round 4: udp_preference_limit 0 and 2; datagram replies of 10 sizes up to the 4096-byte buffer; all ordered pairs of five KRB-ERROR shapes (optional fields present / absent) compared field by field.",
+ "C13": "Added later: consecutive tickets alternating kvno present/absent, negative nonces, round trips through the keytab path and VerifyAPREQ with kvno omitted, all lengths 0..2^24 for the length helpers, re-encoding after decrypt for every encrypted container. Round 4: the library's constructors (AS-REQ, TGS-REQ, authenticator, AP-REQ, PA-ENC-TS-ENC, KRB-ERROR) run under the non-UTC clock and decoded strictly; SetFlag on bit strings of 0..5 octets; AS-REPs with padata in non-ascending order decrypted through password credentials.",
+ "C14": "Added later: kvno values differing by multiples of 256, near-miss lookups whose rendering equals a stored entry's (separator inside a component), holes as first record. Round 4: key version 0, 8-bit versions >= 128 with the 32-bit field absent / zero / set, a newer duplicate of an entry.",
+ "C15": "Added later: tickets with and without kvno mixed, repeated services (last written wins), every pair of different address / authorization-data counts 0..3, versions parsed in alternation in one process. Round 4: the identity of the client built from the cache for 7 default principals per version.",
+ "C16": "Added later: final-value markers in isolation for all four server kinds, preferred_preauth_types in the documented blank-separated form, realm names that are not upper case, boundary-value grids over every field of the three duration formats (seconds; h:m[:s] with hours up to 999; every subset of d/h/m/s units), three consecutive lookups per random outcome. Round 4: five shapes of the [domain_realm] header in the resolve enumeration.",
+ "C17": "Added later: sequence numbers above 2^32, keys differing in one bit, payload slices with spare capacity, tokens verified twice, presented checksums shortened or extended. Round 4: Wrap tokens built with RRC in {1,12,28,256,65535} (checksum over the header with EC and RRC zeroed).",
+ "C18": "Added later: the first challenge must be answered, every token sent must be fresh and acceptable at its destination (strict reference decode of the AP-REQ and authenticator), bodies read back from the returned response, redirect loops. Round 4: the clock moves 1 us per reading and the (client, ctime, cusec) of the tokens of a call must differ; five spellings of the URL host (port, absolute name, case) x resolver answering / failing.",
+ "C19": "Added later: PACs laid out for one declared type and signed with another mechanism of equal length, repeated group SIDs among the extra SIDs, duplicated signature buffers and trailing bytes, every declared checksum type -200..200 outside the supported five with value lengths {0,1,12,16,20,24} under a key of every etype, one PACType value processing two PACs in turn. Round 4: PACs damaged at header level (count, cuts, offsets, empty) presented through the ticket.",
+ "C20": "Added later: unused keytab entries with marker keys, the whole C09 perturbation catalogue on both exchanges (incl. enc-parts that decrypt but do not decode), ccache files of every version and header shape with all 256 values of every header byte, an operation that makes JSON renderings fail (times outside years 0..9999), tickets renewed after expiry, marshal-after-decrypt of request bodies carrying a decrypted additional ticket. Round 4: a marker password that is not valid UTF-8.",
 }
 
 TODO_REASON = "check not yet built in this revision of /verif (work in progress; see DESIGN.md section 2 for the planned bounded-exhaustive exploration)"
